@@ -367,13 +367,81 @@ fn brief(i: &Item) -> String {
     }
 }
 
+/// A stream that reports end of input and later delivers more (a slow writer):
+/// polled the same number of times, the four styles of the two APIs must
+/// report items, errors and "nothing yet" at the same polls.
+fn pausing_stream(rep: &mut Report, input: &[u8], q: &Q, rng: &mut Rng, tag: &str) {
+    use crate::mon::io::PausingReader;
+    let o = q.to_lexpr();
+    let n_p = rng.range(1, 3);
+    let pauses: Vec<usize> = (0..n_p).map(|_| rng.below(input.len() + 1)).collect();
+    let polls = 24usize;
+    let brief = |x: Result<Option<Value>, lexpr::parse::Error>| -> String {
+        match x {
+            Ok(Some(v)) => format!("item {}", dbg_value(&v)),
+            Ok(None) => "none".into(),
+            Err(e) => format!("error {}:{}", cat_name(&e), err_kind(&e)),
+        }
+    };
+    let mut seqs: Vec<(&'static str, Vec<String>)> = Vec::new();
+    {
+        let mut p = Parser::from_reader_custom(PausingReader::new(input, pauses.clone()), o);
+        seqs.push(("next_value", (0..polls).map(|_| brief(p.next_value())).collect()));
+    }
+    {
+        let mut p = Parser::from_reader_custom(PausingReader::new(input, pauses.clone()), o);
+        seqs.push(("next_datum", (0..polls).map(|_| brief(p.next_datum().map(|d| d.map(|d| d.value().clone())))).collect()));
+    }
+    {
+        let mut p = Parser::from_reader_custom(PausingReader::new(input, pauses.clone()), o);
+        seqs.push(("value_iter", (0..polls).map(|_| brief(p.value_iter().next().transpose())).collect()));
+    }
+    {
+        let mut p = Parser::from_reader_custom(PausingReader::new(input, pauses.clone()), o);
+        seqs.push(("datum_iter", (0..polls).map(|_| brief(p.datum_iter().next().transpose().map(|d| d.map(|d| d.value().clone())))).collect()));
+    }
+    rep.eval();
+    rep.distinct(hash2(hash_bytes(input), hash2(q.index() as u64, pauses.iter().fold(7u64, |a, b| a.wrapping_mul(31).wrapping_add(*b as u64)))));
+    rep.count("pausing-stream:compared");
+    // the plain calls agree with each other at every poll; each adaptor agrees with its
+    // plain call up to the first error (after which the adaptors are fused)
+    let pairs = [(0usize, 1usize, usize::MAX), (0, 2, 0), (1, 3, 0), (2, 3, usize::MAX)];
+    for (x, y, until_error) in pairs {
+        let (a, b) = (&seqs[x].1, &seqs[y].1);
+        let mut limit = polls;
+        if until_error == 0 {
+            if let Some(i) = a.iter().position(|s| s.starts_with("error")) {
+                limit = i + 1;
+            }
+        }
+        if let Some(i) = (0..limit).find(|&i| a[i] != b[i]) {
+            rep.violation(
+                "pausing-stream",
+                format!("C10:pausing-stream:{}-vs-{}", seqs[x].0, seqs[y].0),
+                format!("stream over {:?} with {} pausing (Ok(0), then more data) at offsets {:?}: at poll #{} {} gives '{}' but {} gives '{}'", show(input), q.describe(), pauses, i, seqs[x].0, a[i], seqs[y].0, b[i]),
+                json!({"input_hex": hex(input), "q_index": q.index(), "pauses": pauses, "generator": tag}),
+            );
+            return;
+        }
+    }
+}
+
 pub fn sets(ctx: &Ctx) -> Vec<CaseSet> {
     let tb = Arc::new(Tables::new());
     let mut cfg = GenCfg::default_dialect();
     cfg.max_depth = 4;
     cfg.max_items = 5;
     let cfg = Arc::new(cfg);
+    let (tbp, cfgp) = (tb.clone(), cfg.clone());
     vec![
+        CaseSet::new(
+            "pausing-streams",
+            ctx.size(20_000, 600_000),
+            Box::new(move |rep, rng, _| {
+                let (input, q, tag) = crate::props::c06::gen_input(rng, &tbp, &cfgp, 200);
+                pausing_stream(rep, &input, &q, rng, tag);
+            }),
+        ),
         // nesting around the recursion limit: both APIs must draw the line at the same place
         CaseSet::new(
             "near-limit-nesting",
